@@ -6,7 +6,12 @@
   requested, of batching and of the schedule; bit-exact for IEEE doubles.
   Part 2: the generator bookkeeping (private model copy, seed, mode number, derived arrays) as a state
   machine: in every reachable state the arrays are the ones derived from the generator's current
-  settings, and every field-level call returns what a freshly constructed object returns.
+  settings, and every field-level call returns what a freshly constructed object returns — the
+  nugget noise included: it is the noise a fresh object gives after the same number of variates has
+  been drawn since the stream was last restarted, and the stream is restarted exactly by a change the
+  generator can see (model incl. nugget, seed value, mode number, explicit reset).
+  Part 3: positions: a field-level call stores and evaluates the positions it was given, whatever
+  was stored before.
 -/
 import GSV.Props.KernelSummate
 import GSV.Model.Gen
@@ -86,38 +91,41 @@ theorem resetSeed_coherent (s : State) (a : SeedArg) : Coherent (resetSeed s a) 
 theorem derive_epoch_irrelevant (m : MVal) (x : Nat) (n e e' : Nat) :
     derive m (some x) n e = derive m (some x) n e' := rfl
 
+theorem setSeed_coherent (s : State) (x : Option Nat) (h : Coherent s) : Coherent (setSeed s x) := by
+  unfold setSeed
+  by_cases hx : x ≠ s.seed
+  · rw [if_pos hx]; exact resetSeed_coherent _ _
+  · rw [if_neg hx]; exact h
+
+theorem update_coherent (s : State) (m : MVal) (a : SeedArg) (h : Coherent s) : Coherent (update s m a) := by
+  unfold update
+  split
+  · exact resetSeed_coherent _ _
+  · cases a with
+    | keep => exact h
+    | set x => exact setSeed_coherent s x h
+
+theorem genCall_coherent (s : State) (n : Nat) (b : Bool) (p : Option Nat) (h : Coherent s) :
+    Coherent (genCall s n b p).1 := by
+  unfold genCall; split <;> exact h
+
+theorem preCall_coherent (s : State) (a : SeedArg) (p : Nat) (h : Coherent s) : Coherent (preCall s a p) :=
+  update_coherent s s.srfModel a h
+
 /-- for integer seeds the reseed counter does not matter; for `None` seeds coherence is kept because
     nothing but a reseed changes the counter -/
 theorem step_coherent (s : State) (op : Op) (h : Coherent s) : Coherent (step s op).1 := by
   cases op with
-  | srfCall a n =>
-    simp only [step]
-    have hu : Coherent (update s s.srfModel a) := by
-      unfold update
-      split
-      · exact resetSeed_coherent _ _
-      · cases a with
-        | keep => exact h
-        | set x =>
-          simp only [setSeed]
-          by_cases hx : x ≠ s.seed
-          · rw [if_pos hx]; exact resetSeed_coherent _ _
-          · rw [if_neg hx]; exact h
-    unfold genCall
-    split <;> exact hu
+  | srfCall a p n => exact genCall_coherent _ n true (some p) (preCall_coherent s a p h)
   | modelChange m => exact h
-  | genSetSeed x =>
-    simp only [step]; unfold setSeed
-    by_cases hx : x ≠ s.seed
-    · rw [if_pos hx]; exact resetSeed_coherent _ _
-    · rw [if_neg hx]; exact h
+  | genSetSeed x => exact setSeed_coherent s x h
   | genSetModeNo n =>
     simp only [step]
     by_cases hx : n ≠ s.modeNo
     · rw [if_pos hx]; exact resetSeed_coherent _ _
     · rw [if_neg hx]; exact h
   | genResetSeed a => exact resetSeed_coherent _ _
-  | genCall n b => simp only [step]; unfold genCall; split <;> exact h
+  | genCall n b => exact genCall_coherent s n b none h
 
 /-- **C11_derived_coherent**: in every reachable state the derived arrays equal `derive(current settings)` -/
 theorem reachable_coherent (ops : List Op) (m : MVal) (seed : Option Nat) (n : Nat) :
@@ -127,32 +135,34 @@ theorem reachable_coherent (ops : List Op) (m : MVal) (seed : Option Nat) (n : N
   | nil => intro s h; exact h
   | cons op ops ih => intro s h; exact ih _ (step_coherent s op h)
 
+/-- after `update(model, seed)` the generator's private copy is the given model -/
+theorem update_genModel (s : State) (m : MVal) (a : SeedArg) : (update s m a).genModel = m := by
+  unfold update
+  split
+  · rfl
+  · rename_i hne
+    have : s.genModel = m := by simpa using hne
+    cases a with
+    | keep => exact this
+    | set x =>
+      simp only [setSeed]
+      by_cases hx : x ≠ s.seed
+      · rw [if_pos hx]; exact this
+      · rw [if_neg hx]; exact this
+
+theorem preCall_genModel (s : State) (a : SeedArg) (p : Nat) : (preCall s a p).genModel = s.srfModel :=
+  update_genModel s s.srfModel a
+
 /-- **C11_equals_fresh**: whatever happened before (in-place model changes, seed or mode-number changes,
     earlier calls), a field-level call `srf(pos, seed=…)` uses arrays derived from the field's *current*
     model, the resulting seed and mode number — exactly what a freshly constructed object uses. -/
-theorem srfCall_equals_fresh (s : State) (a : SeedArg) (n : Nat) (h : Coherent s) :
-    ∃ o, (step s (.srfCall a n)).2 = some o ∧
-      o.field = derive s.srfModel (step s (.srfCall a n)).1.seed (step s (.srfCall a n)).1.modeNo (step s (.srfCall a n)).1.epoch ∧
-      (step s (.srfCall a n)).1.genModel = s.srfModel := by
+theorem srfCall_equals_fresh (s : State) (a : SeedArg) (p n : Nat) (h : Coherent s) :
+    ∃ o, (step s (.srfCall a p n)).2 = some o ∧
+      o.field = derive s.srfModel (step s (.srfCall a p n)).1.seed (step s (.srfCall a p n)).1.modeNo (step s (.srfCall a p n)).1.epoch ∧
+      (step s (.srfCall a p n)).1.genModel = s.srfModel := by
+  have hm := preCall_genModel s a p
+  have hc : Coherent (preCall s a p) := preCall_coherent s a p h
   simp only [step]
-  have hm : (update s s.srfModel a).genModel = s.srfModel := by
-    unfold update
-    split
-    · rfl
-    · rename_i hne
-      have : s.genModel = s.srfModel := by simpa using hne
-      cases a with
-      | keep => exact this
-      | set x =>
-        simp only [setSeed]
-        by_cases hx : x ≠ s.seed
-        · rw [if_pos hx]; exact this
-        · rw [if_neg hx]; exact this
-  have hc : Coherent (update s s.srfModel a) := by
-    have := step_coherent s (.srfCall a 0) h
-    simp only [step] at this
-    unfold genCall at this
-    split at this <;> exact this
   unfold genCall
   split
   · exact ⟨_, rfl, by simp only []; rw [hc, hm], hm⟩
@@ -165,15 +175,141 @@ theorem seed_value_only (s : State) (x : Option Nat) (h : x = s.seed) : setSeed 
 
 /-- nugget noise is drawn from consecutive stream positions: two calls without an intervening reseed
     never reuse variates -/
-theorem noise_positions_advance (s : State) (n k : Nat) (hn : s.genModel.nug = true) :
+theorem noise_positions_advance (s : State) (n k : Nat) (hn : s.genModel.nug ≠ 0) :
     let r1 := genCall s n true
     let r2 := genCall r1.1 k true
     r1.2.noise.map (fun t => (t.1, t.2.2)) = some (s.seed, s.draws, n) ∧
     r2.2.noise.map (fun t => (t.1, t.2.2)) = some (s.seed, s.draws + n, k) := by
   simp [genCall, hn]
 
-example : Coherent (run (init ⟨1, true⟩ (some 7) 100)
-    [.srfCall (.set (some 7)) 5, .modelChange ⟨2, false⟩, .srfCall .keep 5, .genSetModeNo 50, .srfCall (.set none) 3]).1 :=
+/-! ### nugget noise: the stream position, and when the stream is restarted -/
+
+/-- a fresh object on which `burn` variates were drawn: same settings, stream position `burn`
+    (for a model with nugget), and it is coherent -/
+theorem replayState_spec (r : Recipe) :
+    (replayState r).genModel = r.model ∧ (replayState r).srfModel = r.model ∧ (replayState r).seed = r.seed ∧
+    (replayState r).modeNo = r.modeNo ∧ (r.model.nug ≠ 0 → (replayState r).draws = r.burn) ∧ Coherent (replayState r) := by
+  unfold replayState genCall
+  split
+  · rename_i hn
+    refine ⟨rfl, rfl, rfl, rfl, fun _ => ?_, rfl⟩
+    simp [init]
+  · rename_i hn
+    refine ⟨rfl, rfl, rfl, rfl, fun h => ?_, rfl⟩
+    exact absurd ⟨rfl, h⟩ hn
+
+/-- **C11_noise_replay (generator level)**: with an integer seed, the complete output of a generating call —
+    summed modes *and* nugget noise — in any coherent state equals the output of a freshly constructed
+    generator with the same model, seed and mode number on which as many noise variates were drawn before
+    as the state has drawn since its stream was last restarted. -/
+theorem genCall_equals_fresh_replay (s : State) (x : Nat) (hs : s.seed = some x) (h : Coherent s)
+    (n : Nat) (b : Bool) (p : Option Nat) :
+    (genCall (replayState (recipe s)) n b p).2 = (genCall s n b p).2 := by
+  obtain ⟨hg, _, hsd, hmn, hdr, hc⟩ := replayState_spec (recipe s)
+  have hd : (replayState (recipe s)).derived = s.derived := by
+    rw [hc, h, hg, hsd, hmn]
+    simp only [recipe, hs]
+    exact derive_epoch_irrelevant _ _ _ _ _
+  unfold genCall
+  by_cases hn : b = true ∧ s.genModel.nug ≠ 0
+  · have hn' : b = true ∧ (replayState (recipe s)).genModel.nug ≠ 0 := by rw [hg]; exact hn
+    rw [if_pos hn, if_pos hn']
+    simp only []
+    rw [hd, hsd, hdr hn.2]
+    simp only [recipe, hs]
+  · have hn' : ¬ (b = true ∧ (replayState (recipe s)).genModel.nug ≠ 0) := by rw [hg]; exact hn
+    rw [if_neg hn, if_neg hn']
+    simp only []
+    rw [hd]
+
+/-- **C11_noise_replay (field level)**: after ANY history, a field-level call that leaves an integer seed
+    returns exactly what a freshly constructed object returns that has the field's current model, the
+    resulting seed and mode number, has drawn `burn` noise variates, and is evaluated at the same positions
+    — where `burn` is the number of variates drawn since the last restart of the stream, and the stream is
+    restarted by `update` iff the model (incl. its nugget) or the seed value changed. -/
+theorem srfCall_equals_fresh_replay (s : State) (a : SeedArg) (p n x : Nat) (h : Coherent s)
+    (hs : (preCall s a p).seed = some x) :
+    (step s (.srfCall a p n)).2 =
+      (step (replayState { model := s.srfModel, seed := some x, modeNo := (preCall s a p).modeNo,
+                           burn := (preCall s a p).draws }) (.srfCall .keep p n)).2 := by
+  have hr : recipe (preCall s a p) = { model := s.srfModel, seed := some x, modeNo := (preCall s a p).modeNo,
+                                       burn := (preCall s a p).draws } := by
+    simp only [recipe, preCall_genModel, hs]
+  have hg := genCall_equals_fresh_replay (preCall s a p) x hs (preCall_coherent s a p h) n true (some p)
+  rw [hr] at hg
+  obtain ⟨hgm, hsm, _, _, _, _⟩ := replayState_spec { model := s.srfModel, seed := some x, modeNo := (preCall s a p).modeNo,
+                           burn := (preCall s a p).draws }
+  -- on the fresh object `update` sees its own model: nothing happens
+  have hu : ∀ t : State, t.genModel = t.srfModel → update t t.srfModel .keep = t := by
+    intro t ht; unfold update; simp [ht]
+  simp only [step, preCall]
+  rw [hu _ (by rw [hgm, hsm])]
+  -- `set_pos` does not touch what the generator reads
+  have hp : ∀ (t : State) (q : Nat), (genCall (setPos t q) n true (some p)).2 = (genCall t n true (some p)).2 := by
+    intro t q; unfold genCall setPos; simp only []; split <;> rfl
+  rw [hp]
+  simp only [preCall] at hg
+  rw [hg]
+
+/-- the stream is restarted exactly by a visible change: if the generator's copy already equals the field's
+    model and the seed argument is `keep` or the present value, a field-level call continues the stream … -/
+theorem srfCall_continues_stream (s : State) (a : SeedArg) (p : Nat)
+    (hm : s.genModel = s.srfModel) (ha : a = .keep ∨ a = .set s.seed) :
+    (preCall s a p).draws = s.draws ∧ (preCall s a p).epoch = s.epoch := by
+  unfold preCall setPos update
+  rw [if_neg (by simp [hm])]
+  rcases ha with rfl | rfl
+  · exact ⟨rfl, rfl⟩
+  · simp [setSeed]
+
+/-- … and any change of the field's model that `CovModel.__eq__` sees (variance, nugget, anisotropy, angles,
+    length scale, shape arguments — all of it is in `MVal`) or a different seed value restarts it at position 0 -/
+theorem srfCall_restarts_stream (s : State) (a : SeedArg) (p : Nat)
+    (hc : s.genModel ≠ s.srfModel ∨ ∃ x, a = .set x ∧ x ≠ s.seed) :
+    (preCall s a p).draws = 0 ∧ (preCall s a p).epoch = s.epoch + 1 := by
+  unfold preCall setPos update
+  by_cases hm : s.genModel ≠ s.srfModel
+  · rw [if_pos hm]; exact ⟨rfl, rfl⟩
+  · rw [if_neg hm]
+    rcases hc with hc | ⟨x, rfl, hx⟩
+    · exact absurd hc hm
+    · simp only [setSeed]; rw [if_pos hx]; exact ⟨rfl, rfl⟩
+
+/-! ## Part 3: positions -/
+
+/-- **C11_pos_is_given**: a field-level call stores the positions it was given and its output belongs to
+    them — independently of the positions stored by earlier calls (and of everything else in the state) -/
+theorem srfCall_pos_is_given (s : State) (a : SeedArg) (p n : Nat) :
+    (step s (.srfCall a p n)).1.pos = some p ∧ ∃ o, (step s (.srfCall a p n)).2 = some o ∧ o.pos = some p := by
+  simp only [step]
+  unfold genCall
+  split
+  · exact ⟨rfl, _, rfl, rfl⟩
+  · exact ⟨rfl, _, rfl, rfl⟩
+
+/-- the stored positions never influence an output: two states that differ only in the stored positions
+    give the same output for every operation -/
+theorem stored_pos_irrelevant (s : State) (q : Option Nat) (op : Op) :
+    (step { s with pos := q } op).2 = (step s op).2 := by
+  cases op with
+  | srfCall a p n =>
+    simp only [step, preCall, setPos, update, setSeed, resetSeed, genCall]
+    split <;> (try split) <;> (try split) <;> (try split) <;> rfl
+  | modelChange m => rfl
+  | genSetSeed x => rfl
+  | genSetModeNo n => rfl
+  | genResetSeed a => rfl
+  | genCall n b =>
+    simp only [step, genCall]
+    split <;> rfl
+
+example : Coherent (run (init ⟨1, 1⟩ (some 7) 100)
+    [.srfCall (.set (some 7)) 0 5, .modelChange ⟨2, 0⟩, .srfCall .keep 1 5, .genSetModeNo 50, .srfCall (.set none) 0 3]).1 :=
   reachable_coherent _ _ _ _
+
+/-- the hypotheses of `srfCall_equals_fresh_replay` are met after a history with noise drawn, an in-place
+    change of the nugget only, and a call that keeps the seed: the stream is restarted (burn = 0) -/
+example : (preCall (run (init ⟨1, 1⟩ (some 7) 100) [.srfCall .keep 0 5, .modelChange ⟨1, 2⟩]).1 .keep 0).draws = 0 ∧
+    (preCall (run (init ⟨1, 1⟩ (some 7) 100) [.srfCall .keep 0 5]).1 .keep 1).draws = 5 := by decide
 
 end GSV.Props.C11
